@@ -211,13 +211,8 @@ Definition attach_node (par : list N) (nm : N) (nd : node) (c3 : cache) : outcom
     end
   end.
 
-(* __insert_node(node, path) *)
-Definition insert_node (cf : cfg) (c : cache) (nd : node) (raw : list N) : outcome * cache :=
-  let par := map (cf_fold cf) (removelast raw) in
-  let nm := last raw 0%N in
-  let c1 := with_root c (mkdirp par (c_root c)) in                 (* parent found or _mkdir(parent, None) *)
-  let c2 := snd (delete_loc c1 (loc_path cf c1 raw)) in            (* self.delete(path=path) *)
-  let pid := match lookup par (c_root c2) with Some P => n_id P | None => None end in
+(* the second half of __insert_node: c2 = the state after self.delete(path=path), pid = the parent's id *)
+Definition insert_tail (par : list N) (nm : N) (nd : node) (pid : option N) (c2 : cache) : outcome * cache :=
   match n_id nd with
   | None => attach_node par nm nd c2
   | Some o =>
@@ -229,6 +224,15 @@ Definition insert_node (cf : cfg) (c : cache) (nd : node) (raw : list N) : outco
       else attach_node par nm nd c3
     end
   end.
+
+(* __insert_node(node, path) *)
+Definition insert_node (cf : cfg) (c : cache) (nd : node) (raw : list N) : outcome * cache :=
+  let par := map (cf_fold cf) (removelast raw) in
+  let nm := last raw 0%N in
+  let c1 := with_root c (mkdirp par (c_root c)) in                 (* parent found or _mkdir(parent, None) *)
+  let c2 := snd (delete_loc c1 (loc_path cf c1 raw)) in            (* self.delete(path=path) *)
+  let pid := match lookup par (c_root c2) with Some P => n_id P | None => None end in
+  insert_tail par nm nd pid c2.
 
 (* __make_node(otype, path, oid, metadata) *)
 Definition make_node (cf : cfg) (c : cache) (d : bool) (p : path) (o : option oid) (m : option meta)
